@@ -1,6 +1,7 @@
 package test
 
 import (
+	"io"
 	"strings"
 
 	"github.com/ipfs/go-unixfsnode/file"
@@ -22,8 +23,114 @@ import (
 type tev struct {
 	kind string // R W L U ONCE-ENTER ONCE-BODY-BEGIN ONCE-BODY-END ONCE-RETURN
 	cell string
-	clk  uint8
 	drop bool
+	th   int // 1 or 2 once scheduled
+	idx  int // position in its thread's scheduled trace
+}
+
+// sched is a symbolic interleaving of two scheduled traces k1 and k2: pos[i] is the
+// number of k2 events that precede k1[i]; it is non-decreasing along k1 (program
+// order) and at most len(k2). Every order question between events of different
+// threads is a comparison of one pos variable with a constant.
+type sched struct {
+	k1, k2 []*tev
+	pos    []uint8
+	ok     bool
+}
+
+func newSched(k1, k2 []*tev) *sched {
+	s := &sched{k1: k1, k2: k2, ok: true}
+	for i, e := range k1 {
+		e.th, e.idx = 1, i
+		p := verifrt.U8()
+		s.ok = verifrt.And(s.ok, p <= uint8(len(k2)))
+		if i > 0 {
+			s.ok = verifrt.And(s.ok, p >= s.pos[i-1])
+		}
+		s.pos = append(s.pos, p)
+	}
+	for j, e := range k2 {
+		e.th, e.idx = 2, j
+	}
+	return s
+}
+
+// before: a is scheduled before b (events of different threads).
+func (s *sched) before(a, b *tev) bool {
+	if a.th == 1 {
+		return s.pos[a.idx] <= uint8(b.idx)
+	}
+	return s.pos[b.idx] > uint8(a.idx)
+}
+
+// adjacent: a and b (different threads) are next to each other in the schedule.
+func (s *sched) adjacent(a, b *tev) bool {
+	if a.th == 2 {
+		a, b = b, a
+	}
+	i, j := a.idx, b.idx
+	// a immediately before b: exactly j events of k2 precede a, and the next k1 event follows b
+	ab := s.pos[i] == uint8(j)
+	if i+1 < len(s.k1) {
+		ab = verifrt.And(ab, s.pos[i+1] > uint8(j))
+	}
+	// b immediately before a: exactly j+1 events of k2 precede a, and the previous k1 event precedes b
+	ba := s.pos[i] == uint8(j+1)
+	if i > 0 {
+		ba = verifrt.And(ba, s.pos[i-1] <= uint8(j))
+	}
+	return verifrt.Or(ab, ba)
+}
+
+func (s *sched) require(c bool) { s.ok = verifrt.And(s.ok, c) }
+
+func inTrace(e *tev, k []*tev) bool {
+	for _, x := range k {
+		if x == e {
+			return true
+		}
+	}
+	return false
+}
+
+// exclusive adds mutual exclusion of the critical sections of each mutex.
+func (s *sched) exclusive() {
+	s1, s2 := sections(s.k1), sections(s.k2)
+	for m, as := range s1 {
+		for _, a := range as {
+			for _, b := range s2[m] {
+				s.require(verifrt.Or(s.before(a.hi, b.lo), s.before(b.hi, a.lo)))
+			}
+		}
+	}
+}
+
+// noRaces asserts, per cell class, that no schedule makes two conflicting accesses adjacent.
+func (s *sched) noRaces(label string) {
+	verifrt.Assume(s.ok)
+	noRace := map[string]bool{}
+	var classes []string
+	for _, a := range s.k1 {
+		for _, b := range s.k2 {
+			if a.cell != b.cell {
+				continue
+			}
+			if (a.kind == "W" && (b.kind == "R" || b.kind == "W")) || (b.kind == "W" && a.kind == "R") {
+				c := cellClass(a.cell)
+				if _, seen := noRace[c]; !seen {
+					noRace[c] = true
+					classes = append(classes, c)
+				}
+				noRace[c] = verifrt.And(noRace[c], !s.adjacent(a, b))
+			}
+		}
+	}
+	for _, c := range classes {
+		verifrt.Assert(noRace[c], label+":"+c)
+	}
+	if len(classes) > 0 {
+		verifrt.Reach("conflicting-accesses-checked")
+	}
 }
 
 func parseTrace(raw []string) []*tev {
@@ -144,81 +251,33 @@ func raceFree(t1, t2 []*tev, label string) {
 		return out
 	}
 	k1, k2 := keep(t1), keep(t2)
-	n := len(k1) + len(k2)
-	verifrt.Assert(n < 120, "harness:trace-fits-8-bit-clocks")
-	ok := true
-	assign := func(t []*tev) {
-		var prev *tev
-		for _, e := range t {
-			e.clk = verifrt.U8()
-			ok = verifrt.And(ok, e.clk < uint8(2*n+2))
-			if prev != nil {
-				ok = verifrt.And(ok, e.clk > prev.clk)
-			}
-			prev = e
-		}
-	}
-	assign(k1)
-	assign(k2)
-	for _, a := range k1 {
-		for _, b := range k2 {
-			ok = verifrt.And(ok, a.clk != b.clk)
-		}
-	}
-	inKeep := func(e *tev, k []*tev) bool {
-		for _, x := range k {
-			if x == e {
-				return true
-			}
-		}
-		return false
-	}
+	verifrt.Assert(len(k1) < 250 && len(k2) < 250, "harness:trace-fits-8-bit-positions")
+	sc := newSched(k1, k2)
 	for _, h := range hbs {
-		if h.before != nil && h.after != nil && (inKeep(h.before, k1) || inKeep(h.before, k2)) && (inKeep(h.after, k1) || inKeep(h.after, k2)) {
-			ok = verifrt.And(ok, h.before.clk < h.after.clk)
+		if h.before != nil && h.after != nil && (inTrace(h.before, k1) || inTrace(h.before, k2)) && (inTrace(h.after, k1) || inTrace(h.after, k2)) {
+			sc.require(sc.before(h.before, h.after))
 		}
 	}
-	s1, s2 := sections(k1), sections(k2)
-	for m, as := range s1 {
-		for _, a := range as {
-			for _, b := range s2[m] {
-				ok = verifrt.And(ok, verifrt.Or(a.hi.clk < b.lo.clk, b.hi.clk < a.lo.clk))
-			}
-		}
-	}
-	verifrt.Assume(ok)
-	// one obligation per cell class: no schedule makes a conflicting pair adjacent
-	noRace := map[string]bool{}
-	var classes []string
-	for _, a := range k1 {
-		for _, b := range k2 {
-			if a.cell != b.cell {
-				continue
-			}
-			if (a.kind == "W" && (b.kind == "R" || b.kind == "W")) || (b.kind == "W" && a.kind == "R") {
-				c := cellClass(a.cell)
-				if _, seen := noRace[c]; !seen {
-					noRace[c] = true
-					classes = append(classes, c)
-				}
-				noRace[c] = verifrt.And(noRace[c], !verifrt.Or(a.clk+1 == b.clk, b.clk+1 == a.clk))
-			}
-		}
-	}
-	for _, c := range classes {
-		verifrt.Assert(noRace[c], label+":"+c)
-	}
-	if len(classes) > 0 {
-		verifrt.Reach("conflicting-accesses-checked")
-	}
+	sc.exclusive()
+	sc.noRaces(label)
 }
 
 func cellClass(c string) string {
 	// strip per-child suffixes so that labels are stable
 	if i := strings.IndexByte(c, '['); i >= 0 {
-		return c[:i] + "[child]" + c[strings.LastIndexByte(c, ']')+1:]
+		c = c[:i] + "[child]" + c[strings.LastIndexByte(c, ']')+1:]
 	}
-	return c
+	for {
+		i := strings.IndexByte(c, '#')
+		if i < 0 {
+			return c
+		}
+		j := i + 1
+		for j < len(c) && c[j] >= '0' && c[j] <= '9' {
+			j++
+		}
+		c = c[:i] + c[j:]
+	}
 }
 
 // hamtOp runs one read-only operation on the node.
@@ -316,5 +375,172 @@ func VerifFileConcurrentReaders() {
 	rawB, resB := run()
 	verifrt.Assert(resA == resB, "results:same-as-alone")
 	raceFree(parseTrace(rawA), parseTrace(rawB), "race")
+	verifrt.Reach("end")
+}
+
+// ---- joint (predictive) analysis ---------------------------------------------
+//
+// The two operations run one after the other on the same node with deep tracing
+// (objects published into the node by the first operation are traced under names
+// unique to the object, so the second operation's accesses to them are accesses to
+// the same cells). Every schedule of the two recorded traces that preserves each
+// read's writer (so both threads still see the values they saw, and therefore
+// still execute these traces), program order, mutual exclusion and sync.Once
+// ordering is considered; a race is a schedule that makes two conflicting accesses
+// of different threads adjacent.
+
+func splitJoint(raw []string) (a, b []*tev) {
+	cur := 0
+	for _, e := range raw {
+		i := strings.IndexByte(e, ' ')
+		if e[:i] == "M" {
+			cur++
+			continue
+		}
+		ev := &tev{kind: e[:i], cell: e[i+1:]}
+		if cur <= 1 {
+			a = append(a, ev)
+		} else {
+			b = append(b, ev)
+		}
+	}
+	return
+}
+
+func raceFreeJoint(raw []string, label string) {
+	t1, t2 := splitJoint(raw)
+	writes := map[string]bool{}
+	touched1, touched2 := map[string]bool{}, map[string]bool{}
+	mark := func(t []*tev, touched map[string]bool) {
+		for _, e := range t {
+			if e.kind == "R" || e.kind == "W" {
+				touched[e.cell] = true
+				if e.kind == "W" {
+					writes[e.cell] = true
+				}
+			}
+		}
+	}
+	mark(t1, touched1)
+	mark(t2, touched2)
+	keep := func(t []*tev) []*tev {
+		var out []*tev
+		var last *tev
+		for _, e := range t {
+			if e.kind == "R" || e.kind == "W" {
+				if !(touched1[e.cell] && touched2[e.cell] && writes[e.cell]) {
+					continue
+				}
+				if last != nil && last.kind == e.kind && last.cell == e.cell {
+					continue
+				}
+			}
+			out = append(out, e)
+			last = e
+		}
+		return out
+	}
+	k1, k2 := keep(t1), keep(t2)
+	verifrt.Assert(len(k1) < 250 && len(k2) < 250, "harness:trace-fits-8-bit-positions")
+	sc := newSched(k1, k2)
+	// sync.Once: the thread that did not run the body returns after the body ended
+	onceOrder := func(body, other []*tev) {
+		for _, e := range body {
+			if e.kind == "ONCE-BODY-END" {
+				for _, r := range other {
+					if r.kind == "ONCE-RETURN" && r.cell == e.cell {
+						sc.require(sc.before(e, r))
+					}
+				}
+			}
+		}
+	}
+	onceOrder(k1, k2)
+	onceOrder(k2, k1)
+	sc.exclusive()
+	// every read keeps its writer (observed order: all of k1, then all of k2)
+	lastW := map[string]*tev{}
+	readsFrom := func(mine, other []*tev) {
+		for _, e := range mine {
+			switch e.kind {
+			case "W":
+				lastW[e.cell] = e
+			case "R":
+				lw := lastW[e.cell]
+				switch {
+				case lw == nil:
+					for _, o := range other {
+						if o.kind == "W" && o.cell == e.cell {
+							sc.require(sc.before(e, o))
+						}
+					}
+				case lw.th != e.th:
+					sc.require(sc.before(lw, e))
+				default:
+					for _, o := range other {
+						if o.kind == "W" && o.cell == e.cell {
+							sc.require(verifrt.Or(sc.before(o, lw), sc.before(e, o)))
+						}
+					}
+				}
+			}
+		}
+	}
+	readsFrom(k1, k2)
+	readsFrom(k2, k1)
+	sc.noRaces(label)
+}
+
+// VerifHamtConcurrentReadersJoint (C17): as VerifHamtConcurrentReaders, with the two
+// operations recorded on one and the same node (see "joint analysis" above), so that
+// objects one operation caches in the node and the other then uses are covered.
+func VerifHamtConcurrentReadersJoint() {
+	which := verifrt.Choose(len(hShapes) - 1)
+	lg := verifrt.Param("lg", 3)
+	opA := verifrt.Choose(4)
+	opB := verifrt.Choose(4)
+	bh := buildHamtShape(which, lg)
+	node, err := bh.open(false)
+	verifrt.Assert(err == nil, "harness:open")
+	verifrt.TraceSharedDeep(node, "n")
+	verifrt.TraceMark("A")
+	hamtOp(node, bh, opA)
+	verifrt.TraceMark("B")
+	hamtOp(node, bh, opB)
+	raceFreeJoint(verifrt.TraceTake(), "race")
+	verifrt.Reach("end")
+}
+
+// VerifFileConcurrentReadersJoint (C17): two goroutines each obtain their own reader
+// from one shared file node with two interior levels and read the whole file.
+func VerifFileConcurrentReadersJoint() {
+	L := 3 + verifrt.Choose(3)
+	bf := buildFileFor(2, 1, L)
+	defer bf.restore()
+	root, err := bf.ls.Load(ipld.LinkContext{}, bf.lnk, protoFor(bf.lnk))
+	verifrt.Assert(err == nil, "harness:root-loads")
+	node, err := file.NewUnixFSFile(nil, root, bf.ls)
+	verifrt.Assert(err == nil, "harness:open")
+	op := func() int {
+		rs, err := node.AsLargeBytes()
+		if err != nil {
+			return -1
+		}
+		buf := make([]byte, L)
+		n, _ := io.ReadFull(rs, buf)
+		end, _ := rs.Seek(0, io.SeekEnd)
+		if !verifrt.BytesEq(buf[:n], bf.content[:n]) {
+			return -2
+		}
+		return n*100 + int(end)
+	}
+	verifrt.TraceSharedDeep(node, "f")
+	verifrt.TraceMark("A")
+	resA := op()
+	verifrt.TraceMark("B")
+	resB := op()
+	raw := verifrt.TraceTake()
+	verifrt.Assert(resA == L*100+L && resB == resA, "results:same-as-alone")
+	raceFreeJoint(raw, "race")
 	verifrt.Reach("end")
 }
